@@ -106,6 +106,7 @@ ThreadPool::ThreadPool(size_t n, size_t poolLoadMultiplier)
   size_t adjustedN = static_cast<size_t>(numThreads_);
   // Set up per-thread ring counts and wake state.
   if (adjustedN > 0) {
+    ringsConstructed_.store(static_cast<size_t>(rings_.size()), std::memory_order_release);
     numRings_.store(adjustedN, std::memory_order_release);
     numStealRings_.store(
         (adjustedN + stealRingSharing_ - 1) / stealRingSharing_, std::memory_order_release);
@@ -349,6 +350,7 @@ void ThreadPool::resizeLocked(ssize_t sn) {
     if (n > rings_.size()) {
       rings_.grow_by(n - rings_.size());
     }
+    ringsConstructed_.store(static_cast<size_t>(rings_.size()), std::memory_order_release);
     numRings_.store(n, std::memory_order_release);
 
     size_t newNumSteal = (n + stealRingSharing_ - 1) / stealRingSharing_;
